@@ -1,6 +1,6 @@
 (* C17 — property theorems only (statements + [exact]); proofs are in Proofs.v. *)
 From Coq Require Import List NArith Bool Permutation Sorted.
-From V.C17 Require Import Model Proofs Crash.
+From V.C17 Require Import Model Proofs Crash Identity.
 Import ListNotations.
 Local Open Scope N_scope.
 
@@ -323,6 +323,41 @@ Proof.
   exists (mkCst [] None None []), (mkB 1 [5]), 3%nat, (mkTx 5 1 0 0). exact late_order_refuted.
 Qed.
 Print Assumptions C17_crash_late_order_refuted.
+
+(* At most once per transaction IDENTITY (Identity.v).  The pool is keyed by the wrapper's Hash; the same
+   signed payload is the same transaction.  For any identity function [ident] and hash function [Hf], with
+   [bound t] := thash t = Hf (ident t) -- the admission predicate that VerifyTransaction must establish before
+   AddTransaction (native: Hash = GenHash(); ETH-wrapped: compareTx incl. Hash) -- : after a block containing
+   t is executed, no admitted transaction with t's identity is accepted or packed until an unmark names it ... *)
+Theorem C17_at_most_once_identity : forall (ident : tx -> N) (Hf : N -> N) lim ops1 txs ev ops2 t,
+  In t txs -> bound ident Hf t -> (forall o, In o ops2 -> ~ unmarks o (thash t)) ->
+  let s := run lim empty (ops1 ++ OMark txs ev :: ops2) in
+  (forall t', ident t' = ident t -> bound ident Hf t' -> add lim s t' = (s, AErrExist)) /\
+  (forall f st cap t', In t' (pack f st cap s) -> bound ident Hf t' -> ident t' <> ident t).
+Proof. exact at_most_once_ident. Qed.
+Print Assumptions C17_at_most_once_identity.
+
+(* ... and a packed batch holds every identity at most once when every pending transaction was admitted. *)
+Theorem C17_pack_nodup_identity : forall (ident : tx -> N) (Hf : N -> N) lim ops f st cap,
+  let s := run lim empty ops in
+  (forall t, In t (received s) -> bound ident Hf t) ->
+  NoDup (map ident (pack f st cap s)).
+Proof. exact pack_nodup_ident. Qed.
+Print Assumptions C17_pack_nodup_identity.
+
+(* Without the binding of the wrapper hash to the payload: one identity (sender, nonce) under two wrapper
+   hashes is pending twice and packed twice, and under a third hash is admitted again after its execution. *)
+Theorem C17_unbound_refuted : exists (ident : tx -> N) a a' a'' f st cap,
+  let s := run 10 empty [OAdd a; OAdd a'] in
+  let s2 := run 10 s [OMark [a; a'] []] in
+  ident a = ident a' /\ ident a = ident a'' /\
+  pack f st cap s = [a'; a] /\ snd (add 10 s2 a'') = AOk.
+Proof.
+  exists (fun t => tsrc t * 18446744073709551616 + tnonce t), (mkTx 100 7 0 0), (mkTx 101 7 0 0), (mkTx 102 7 0 0),
+         (mkFlags true true true true), (fun _ => 0), 200.
+  exact unbound_refuted.
+Qed.
+Print Assumptions C17_unbound_refuted.
 
 (* Non-vacuity of the schedule theorems: on the locked steps the schedule that broke the unlocked code makes
    the MarkExecuted wait (its first LMarkW is a blocked step), and ends executed-only; a mid-MarkExecuted
